@@ -65,9 +65,9 @@ def main():
             m = re.match(r"\[(C\d+)\] (.*)", line)
             if m:
                 cur = m.group(1)
-                verdicts[cur] = m.group(2)[:200]
-            elif cur and line.startswith("VIOLATION"):
-                pass
+                line = m.group(2)
+            if cur and (line.startswith("VIOLATION") or line.startswith("OK")) and cur not in verdicts:
+                verdicts[cur] = line[:200]
         m = re.search(r"clean_exit=(\d+) changed_exit=(\d+)", checks)
         suite = (d / "suite_with_change.log").read_text().strip() if (d / "suite_with_change.log").exists() else ""
         caught = {c: ("counterexample" if v.startswith("VIOLATION") and "no-failing-input-found" not in v
